@@ -38,6 +38,8 @@ class Engine(StmtMixin, LoopMixin, CallMixin, Expr2Mixin, ExprMixin, EngineBase)
         self.ghost_sites_hit = set()
         self.sorted_log = []
         self.groupby_log = []
+        self.filter_log = []
+        self.dedupe_log = []
 
     # ------------------------------------------------------------------ prefix sums
     def num_kind(self, k):
